@@ -61,6 +61,14 @@ A_FULL = ([["gaussian", 3, 0.1], ["rectangle", 3, 0.1], ["uniform", 3, 0.2], ["l
 # background), the single-point twin of cut0 (seeded change C01-e2 short-cut npts <= 1 past the limits)
 A_SMALL = [["gaussian", 3, 0.1], ["schulz", 5, 0.1], ["rectangle", 2, 0.1], ["cut1"], ["cut0"], ["cut0n1"]]
 CUTOFFS = [1e-5, 0.05, 0.999, 1.5, "eqmin"]
+# single-precision builds of the same loop (the statement says "every compiled model", not "in double"): the whole
+# generated source is converted, so weights, cutoff and every accumulator are float32.  Judged against single-point
+# evaluations of the SAME single-precision library; bound: (mesh points + 10) x float32 unit round-off x sum|terms|
+# <= 210 x 6e-8 = 1.3e-5, used with a margin of 8.  Requests with a mesh weight within 1e-5 (relative) of the cutoff
+# are not generated (float32 and double could disagree on the comparison itself).
+SINGLE_MODELS = ["sphere", "cylinder", "core_shell_sphere"]
+SINGLE_RTOL = 1e-4
+A_SINGLE = A_SMALL + [["gaussian", 10, 0.1]]
 
 MESH_FAMILY = {
     1: [[99], [100], [101], [200], [201]],
@@ -99,6 +107,9 @@ def setup(ctx):
     bad = build.prebuild(ctx, names)
     if bad:
         raise HarnessError("models failed to build: %r" % bad)
+    bad = build.prebuild(ctx, SINGLE_MODELS, dtype="single")
+    if bad:
+        raise HarnessError("single-precision models failed to build: %r" % bad)
     ctx.notes["probe"] = write_probe(ctx.scratch)
     build_probe = build.prebuild  # noqa
     from sasmodels import core
@@ -130,6 +141,14 @@ def cases(ctx):
         if len(info.parameters.pd_1d) > info.parameters.max_pd:
             out.append({"kind": "toomany", "model": m, "n": info.parameters.max_pd + 1})
             out.append({"kind": "toomany", "model": m, "n": info.parameters.max_pd})
+    for m in SINGLE_MODELS:
+        names = disp_names(build.info(m))[:3]
+        dims = [("pd:" + n, None, A_SINGLE) for n in names]
+        dims.append(("cutoff", 0.0, [1e-5, 0.05, 0.3]))
+        dims.append(("q", "1d", ["2d"]))
+        for k, c in deviations(dims, 2 if ctx.quick else 3):
+            c["dtype"] = "single"
+            out.append({"kind": "mean", "model": m, "dev": k, "cfg": c})
     mesh_models = MESH_MODELS_QUICK if ctx.quick else models
     for m in mesh_models:
         names = disp_names(build.info(m))
@@ -240,7 +259,7 @@ def run_case(case, ctx):
     raise HarnessError("unknown case kind %r" % kind)
 
 
-def _compare(r, case, m, qkind, base, spec, cutoff, fk, extra_branches=()):
+def _compare(r, case, m, qkind, base, spec, cutoff, fk, extra_branches=(), dtype="double"):
     """spec: {name: (type, npts, width, nsigmas)} with base[name] the nominal value"""
     from sasmodels.direct_model import call_kernel, call_Fq
     info = m.info
@@ -261,10 +280,21 @@ def _compare(r, case, m, qkind, base, spec, cutoff, fk, extra_branches=()):
     if cutoff == "eqmin":
         ws = [wt for (_, wt) in disp.values() if len(wt)]
         cutoff = float(np.prod([w_.min() for w_ in ws])) if ws and len(ws) == 1 else 0.0
-    desc = "%s %s pars=%s cutoff=%r" % (case["model"], qkind,
-                                        {k: v for k, v in pars.items() if "_pd" in k or k in spec}, cutoff)
-    ref = refmodel.weighted_mean(k_ref, base, disp, cutoff, mode=0)
+    desc = "%s%s %s pars=%s cutoff=%r" % (case["model"], "" if dtype == "double" else " [dtype=%s]" % dtype, qkind,
+                                          {k: v for k, v in pars.items() if "_pd" in k or k in spec}, cutoff)
+    rtol = 1e-11
     br = list(extra_branches)
+    if dtype != "double":
+        rtol = SINGLE_RTOL
+        fk = dict(fk, dtype=dtype)
+        if str(k_impl.dtype) != "float32":
+            raise HarnessError("%s built with dtype=%s runs in %s" % (case["model"], dtype, k_impl.dtype))
+        if cutoff > 0:
+            prods = [float(np.prod(c)) for c in itertools.product(*[wt for (_, wt) in disp.values()])]
+            if any(abs(pw - cutoff) <= 1e-5 * cutoff for pw in prods):
+                return r.ok(outcome="skipped: a mesh weight within float32 rounding of the cutoff")
+        br.append("single-precision")
+    ref = refmodel.weighted_mean(k_ref, base, disp, cutoff, mode=0)
     if ref["npoints"] > 100:
         br.append("chunk-boundary-crossed")
     if ref["ncut"]:
@@ -298,7 +328,7 @@ def _compare(r, case, m, qkind, base, spec, cutoff, fk, extra_branches=()):
         r.fail("%s: a kernel that served another request before returns %s, a fresh kernel %s" % (desc, impl2, impl),
                dict(fk, clause="used-kernel"), branches=br)
         return
-    ok, err = refmodel.close(impl, ref["I"], ref["mag"], rtol=1e-11)
+    ok, err = refmodel.close(impl, ref["I"], ref["mag"], rtol=rtol)
     nominal = refmodel.raw_point(k_ref, dict(base, scale=1.0, background=0.0))
     if nominal["w"] > 0:
         shell = nominal["shell"] if nominal["shell"] != 0 else 1.0
@@ -330,7 +360,7 @@ def _compare(r, case, m, qkind, base, spec, cutoff, fk, extra_branches=()):
             mag = None
             if nm == "F1":
                 mag = np.sqrt(np.abs(ref_m["F2"]))  # <F> can cancel; bound by sqrt<F^2>
-            ok2, err2 = refmodel.close(a, b, mag, rtol=1e-11)
+            ok2, err2 = refmodel.close(a, b, mag, rtol=rtol)
             if not ok2:
                 r.fail("%s: call_Fq %s impl=%s ref=%s" % (desc, nm, a, b), dict(fk, clause="Fq-" + nm),
                        branches=br, nt=nt)
@@ -344,9 +374,10 @@ def _compare(r, case, m, qkind, base, spec, cutoff, fk, extra_branches=()):
 
 def _run_mean(case, ctx):
     r = R()
-    m = build.model(case["model"])
-    info = m.info
     cfg = case["cfg"]
+    dtype = cfg.get("dtype", "double")
+    m = build.model(case["model"], dtype)
+    info = m.info
     base = _defaults(info, cfg.get("nominal", 1.0))
     spec = {}
     fk = {"model": case["model"]}
@@ -367,7 +398,7 @@ def _run_mean(case, ctx):
             spec[name] = (t, n, w, 3.0 if t not in ("lognormal", "schulz") else 3.0)
     if len(spec) > info.parameters.max_pd:
         return r.ok(outcome="skipped: more dispersed than loop slots")
-    _compare(r, case, m, cfg.get("q", "1d"), base, spec, cfg.get("cutoff", 0.0), fk)
+    _compare(r, case, m, cfg.get("q", "1d"), base, spec, cfg.get("cutoff", 0.0), fk, dtype=dtype)
     return r
 
 
@@ -571,5 +602,6 @@ def finish(ctx, report):
     report.require("single-point-not-nominal", 10, "distribution truncated to one point != nominal")
     report.require("zero-point", 10, "mesh with no qualifying point")
     report.require("refusal", 1, "more dispersed parameters than loop slots")
+    report.require("single-precision", 200, "single-precision builds of the dispersity loop")
     report.require("probe-decoded", 5, "visited-set probe")
     report.require("partitions", 20, "partition enumeration")
